@@ -55,6 +55,7 @@ func (w *c05World) verify(ops []merkle.ProofOp, root []byte, keypath string, val
 	})
 	if panicked {
 		w.c.AddExtra("verifier_panics_counted_as_rejection", 1)
+		w.c.Extra("verifier_panic_sample", msg)
 		return fmt.Errorf("verifier panicked: %s", msg)
 	}
 	return err
